@@ -36,30 +36,31 @@ var ruleSets = map[string]func(a *Analyzer, r *Results){
 	"timer":  runTimer,
 	"c20":    runC20,
 	"more":   runMore,
+	"r3":     runR3,
 }
 
 // which rule sets each property needs
 var propSets = map[string][]string{
-	"C01": {"more", "ingest", "proof", "c06"},
-	"C02": {"c02", "c12", "c20"},
-	"C03": {"ingest", "c20", "c02"},
-	"C04": {"ingest", "proof"},
-	"C05": {"more", "ingest", "chan", "loops", "setters", "c19f"},
+	"C01": {"r3", "more", "ingest", "proof", "c06"},
+	"C02": {"r3", "c02", "c12", "c20"},
+	"C03": {"r3", "ingest", "c20", "c02"},
+	"C04": {"more", "ingest", "proof"},
+	"C05": {"r3", "more", "ingest", "chan", "loops", "setters", "c19f", "c20"},
 	"C06": {"c06"},
-	"C07": {"more", "ingest", "proof"},
-	"C08": {"ingest", "proof", "c17"},
-	"C09": {"more", "ingest", "c20"},
-	"C10": {"ingest", "setters", "c20"},
-	"C11": {"more", "ingest", "proof", "c20"},
-	"C12": {"more", "c12", "c18", "locks", "ingest", "loops"},
+	"C07": {"r3", "more", "ingest", "proof"},
+	"C08": {"r3", "ingest", "proof", "c17"},
+	"C09": {"r3", "more", "ingest", "c20", "proof"},
+	"C10": {"r3", "ingest", "setters", "c20"},
+	"C11": {"r3", "more", "ingest", "proof", "c20"},
+	"C12": {"r3", "more", "c12", "c18", "locks", "ingest", "loops", "spawn", "chan"},
 	"C13": {"more", "ingest", "setters", "locks", "registry", "loops", "c17"},
-	"C14": {"more", "ingest", "chan", "sync", "loops", "registry", "shutdown", "timer"},
+	"C14": {"r3", "more", "ingest", "chan", "sync", "loops", "registry", "shutdown", "timer"},
 	"C15": {"more", "ingest", "registry", "locks", "loops", "sync", "shutdown", "chan"},
-	"C16": {"more", "chan", "spawn", "shutdown", "timer", "c12", "registry", "ingest"},
-	"C17": {"more", "ingest", "c17"},
+	"C16": {"more", "chan", "spawn", "shutdown", "timer", "c12", "registry", "ingest", "locks"},
+	"C17": {"r3", "more", "ingest", "c17"},
 	"C18": {"more", "c18", "ingest"},
-	"C19": {"more", "c19f", "timer", "chan", "loops", "ingest"},
-	"C20": {"more", "c20"},
+	"C19": {"r3", "more", "c19f", "timer", "chan", "loops", "ingest"},
+	"C20": {"r3", "more", "c20"},
 }
 
 // minimum number of obligation instances per rule confirmed by reading (vacuity guard)
